@@ -851,6 +851,8 @@ def c09(ix: Index) -> None:
             continue
         ix.C['c09_events'] += 1
         xp = ix.mk[ev].get('xparent')
+        if xp == 'none':
+            xp = None  # event_parent_id=None passed explicitly is no parent at all
         by = ix.disp_by.get(ev)
         if xp == 'self':
             want_parent = ix.inv[by]['ev'] if isinstance(by, int) and by in ix.inv else None
@@ -1048,8 +1050,21 @@ def c15(ix: Index) -> None:
                 continue  # only returned after quiescence (released by the harness's own probe or by tear-down): see its idle_hang record
             call_seq = r['call'] if r['by'] == 'M' else next((c['seq'] for c in calls.values() if c['call'] == r['call'] and c['by'] == r['by']), None)
             rets[call_seq] = r
+    stop_rets = {}
+    for r in ix.R:
+        if r['k'] == 'stop_ret':
+            stop_rets.setdefault(r['bus'], r['seq'])
     for cseq, c in calls.items():
         if c['bus'] in stopped:
+            # a stopped bus abandons its backlog by design (whoever waits for that waits for ever) - but a bus that was stopped CLEAN
+            # and has nothing queued, pending, started or unfinished when wait_until_idle() is called must let the caller go at once,
+            # whatever was offered to it (and refused) in between
+            clean = c.get('q0') == 0 and c.get('pend0') == 0 and c.get('started0') == 0 and c.get('unfinished0') == 0 and c.get('running0') is False
+            if clean and c['bus'] in stop_rets and stop_rets[c['bus']] < c['seq'] and c['by'] != 'M':
+                ix.C['c15_calls_on_a_cleanly_stopped_bus'] += 1
+                r = rets.get(cseq)
+                if (r is None or r['k'] == 'idle_hang' or r['vt'] - c['vt'] > 0.25) and _actor_fate(ix, c['by']) != 'cancelled':
+                    ix.v('C15', 'never-returns-on-clean-stopped-bus', None, bus=c['bus'], by=c['by'], took=None if r is None else r['vt'] - c['vt'])
             continue
         r = rets.get(cseq)
         ix.C['c15_calls'] += 1
@@ -1365,6 +1380,22 @@ def c10(ix: Index) -> None:
                         seen_a.add(cur)
                         cur = ix.parent_of[cur]
                         anc.append(cur)
+                    # (cyclic child graphs: an event that a handler RE-dispatched is a child of that handler's event as well, whatever
+                    # its own first parent was - everything above that event counts)
+                    todo = [i['ev']]
+                    while todo:
+                        e_ = todo.pop()
+                        for r_ in ix.R:
+                            if r_['k'] == 'disp_call' and r_['ev'] == e_ and isinstance(r_['by'], int) and r_['by'] in ix.inv:
+                                x_ = ix.inv[r_['by']]['ev']
+                                if x_ not in anc and x_ != i['ev']:
+                                    anc.append(x_)
+                                    todo.append(x_)
+                                    c2 = x_
+                                    while c2 in ix.parent_of and ix.parent_of[c2] not in anc:
+                                        c2 = ix.parent_of[c2]
+                                        anc.append(c2)
+                                        todo.append(c2)
                     if ix.sc['handlers'][hi].get('retry') and res_h is not None and res_h['err'] in ('TimeoutError', 'CancelledError') and any(r['h'] == hi and r['ev'] == i['ev'] for r in h_calls):
                         ix.C['c10_retry_handlers_timed_out_waiting_for_their_slot'] += 1
                         continue  # started by the library, timed out while still waiting for its semaphore slot: the body never ran
